@@ -39,6 +39,8 @@ def gen_models(rng, n, res, depth_max=3):
                     ast["ch"].append(cg.leaf(extra[0]))
             if rng.random() < 0.4:
                 ast = {"k": rng.choice(["All", "Any", "AtLeast"]), "ch": [ast, cg.leaf(rng.choice(cg.items))], "id": rng.choice([None, "W"]), "v": 1, "s": None}
+        elif tries % 16 == 9:
+            ast = wide_ast(rng); res.count("wide_node_models")
         else:
             ast = g.prop(rng.randint(0, depth_max))
         orc = IdOracle()
@@ -88,6 +90,45 @@ def oracle_one(res, ast, m, neg, rng, n_env, exhaustive_cap=0):
         res.violation("oracle", f"negate() of solver-safe model {m!r} is not solver-safe: {canon(neg)}", {"op": "negate-safe", "model": ast_json(ast)})
         return False
     return True
+
+def apply_edit(m, spec):
+    """negate once, then change a threshold in place (on the object, or on a shallow copy of it) - returns the object to negate again"""
+    import copy
+    m.negate()
+    target = copy.copy(m) if spec["copy"] else m
+    nodes = [x for x in all_nodes(target) if not is_var(x)]
+    x = nodes[spec["node"] % len(nodes)]
+    if x is not target and spec["copy"]:
+        x = target                      # a shallow copy shares its sub-propositions with the original: edit the copy itself
+    x.value = int(x.value) + spec["delta"]
+    return target
+
+def edit_stream(res, tier, rng, models):
+    """a proposition is an object: its threshold is changed in place after it was negated once (directly, or below a parent whose
+    negation is pushed inwards through it); the next negate() is the complement of the proposition as it is then"""
+    for ast, m0, neg0, orc in models[: (120 if tier == "quick" else 1500)]:
+        spec = {"node": rng.randrange(8), "delta": rng.choice([1, -1, 2]), "copy": rng.random() < 0.3}
+        try:
+            m = apply_edit(build(ast), spec)
+            if m.errors():
+                res.count("edit_skipped_invalid"); continue
+            neg = m.negate()
+        except Exception as e:
+            res.count("edit_error:" + type(e).__name__); continue
+        res.count("negate_after_in_place_edit" + ("_of_copy" if spec["copy"] else ""))
+        lv = leaves_of(m)
+        envs = all_envs(lv, 300) or [random_env(lv, rng) for _ in range(12)]
+        for env in envs:
+            res.evaluations += 1
+            want = 1 - ref_eval(m, env)
+            try:
+                got = neg.evaluate(dict(env)).as_tuple()
+            except Exception as e:
+                got = ("raised", type(e).__name__)
+            if got != (want, want) or ref_eval(neg, env) != want:
+                res.violation("oracle", f"negate() is not the complement after an in-place change of a threshold ({spec}; one negate() before it): {m!r} negated to {neg!r} evaluates to {got} at {env}, required {want}",
+                              {"op": "negate-after-edit", "model": ast_json(ast), "edit": spec, "env": env, "required": want, "observed": list(got)})
+                break
 
 def not_stream(res, tier, rng, models):
     """Not(...) — the constructor route to negation: Not(model) for compound models, Not(atom) for str / puan.variable atoms
@@ -164,6 +205,7 @@ def run(res, tier, seed):
     for ast, m, neg, orc in models:
         oracle_one(res, ast, m, neg, rng, 8 if tier == "quick" else 20, exhaustive_cap=0 if tier == "quick" else 600)
     not_stream(res, tier, rng, models)
+    edit_stream(res, tier, random.Random(seed * 7937 + 5), models)
     for i in failing[:10]:
         ast, m, neg = cases[i][1]
         found = not oracle_one(res, ast, m, neg, rng, 2000, exhaustive_cap=20000)
@@ -177,6 +219,13 @@ def replay(payload):
         got = neg.evaluate(dict(r["env"])).as_tuple()
         print("Not of", json.dumps(r["model"])[:300], "=", neg, "env", r["env"], "evaluates to", got, "required", r["required"])
         return 0 if got == (r["required"], r["required"]) else 1
+    if r.get("op") == "negate-after-edit":
+        m = apply_edit(build(r["model"]), r["edit"])
+        neg = m.negate()
+        want = 1 - ref_eval(m, r["env"])
+        got = neg.evaluate(dict(r["env"])).as_tuple()
+        print("model after the edit", m, "negated", neg, "env", r["env"], "negated evaluates to", got, "required", want)
+        return 0 if got == (want, want) and ref_eval(neg, r["env"]) == want else 1
     m = build(r["model"])
     neg = m.negate()
     if "env" in r:
